@@ -256,6 +256,15 @@ class G:
             w = r.choice(["hi", "a b", "é!", ""])
             scope[-1][x] = "str"
             return ['let %s = "%s"' % (x, w)], [["let", x, ["lit", [["t", w]] if w else []]]]
+        if k < 0.888 and (strs or arrs):
+            # plain assignment to a string or an array variable
+            if strs and (not arrs or r.random() < 0.5):
+                x = r.choice(strs)
+                w = r.choice(["new", "x y", "é", ""])
+                return ['%s = "%s"' % (x, w)], [["assign", x, ["lit", [["t", w]] if w else []]]]
+            x = r.choice(arrs)
+            vals = [self.atom(nums) for _ in range(r.randint(0, 3))]
+            return ["%s = [%s]" % (x, ", ".join(v[0] for v in vals))], [["assign", x, ["arr", [v[1] for v in vals]]]]
         if k < 0.895 and strs:
             x = r.choice(strs)
             if r.random() < 0.5:
